@@ -37,8 +37,10 @@ class Judge:
         self.hits = 0
         self.misses = 0
 
-    def oracle(self, history, rec):
-        oh = W.oracle_history(history, rec)
+    def oracle(self, history, rec, records=None):
+        oh = W.oracle_history(history, rec, records)
+        if oh is None:
+            return None
         key = core.sha(oh)
         got = self.cache.get(key)
         if got is not None:
@@ -79,6 +81,8 @@ class Judge:
                     res['violation'] = self._violation(history, rec, DEFAULT_EXIT, {})
                 continue
             fault_kind = op.get('fault') if rec['kind'] in ('RENDER', 'MD', 'BARE') else None
+            if rec['kind'] == 'TOC':
+                op = {'doc': '<toc>'}
             is_exc = rec['outcome'][0] == 'exc'
             if is_exc:
                 if fault_kind:
@@ -87,15 +91,20 @@ class Judge:
                 else:
                     res['natural_exc'] += 1
                     last_fault = 'natural:' + rec['outcome'][1]
-            elif last_fault is not None and rec['kind'] in ('RENDER', 'MD', 'BARE'):
+            elif last_fault is not None and rec['kind'] in ('RENDER', 'MD', 'BARE', 'TOC'):
                 res['pairs'].add((last_fault, rec['kind'], hashlib.sha256(op['doc'].encode()).hexdigest()[:8]))
+            if rec.get('nocompare'):
+                continue      # produced while renderer contexts were nested: outside the property (DESIGN 4.2)
             if op.get('reclimit'):
                 # executed under a lowered recursion limit: a fault injection, not an observation. Where exactly
                 # the interpreter gives up depends on warm caches (re, lru_cache), i.e. on the environment.
                 continue
             if res['violation'] is not None:
                 continue
-            expected, opre = self.oracle(history, rec)
+            got = self.oracle(history, rec, frames)
+            if got is None:
+                continue
+            expected, opre = got
             res['n_compared'] += 1
             if expected != rec['outcome']:
                 res['violation'] = self._violation(history, rec, expected, W.implicated(rec['pre'], opre))
@@ -116,7 +125,8 @@ class Judge:
                             'doc': op.get('doc')},
                 'expected': list(expected), 'actual': list(rec['outcome']),
                 'implicated': implicated,
-                'klass': rec['kind'] + '|' + ','.join(sorted(implicated)),
+                # _root_node staying set is a by-product of every failed parse; it names a class only on its own
+                'klass': rec['kind'] + '|' + ','.join(sorted(k for k in implicated if k != 'root_node_set' or len(implicated) == 1)),
                 'history': history}
 
 
@@ -125,13 +135,13 @@ class Judge:
 
 def plan(tier, seed):
     variants = G.fault_variants(tier, seed)
-    rots = list(range(len(D.SENTINELS))) if tier == 'thorough' else list(range(0, len(D.SENTINELS), 3))
+    rots = list(range(len(D.SENTINELS))) if tier == 'thorough' else list(range(0, len(D.SENTINELS), 6))
     n_sys = len(variants) * len(G.MODES) * len(rots)
-    pairs = G.pair_histories(tier)
+    pairs = G.pair_histories(tier) + G.nest_histories(tier) + G.cross_histories(tier) + G.toc_histories(tier)
     if tier == 'thorough':
         n_rand, n_ff = int(os.environ.get('VERIF_C11_RUNS', 400000)), int(os.environ.get('VERIF_C11_FF_RUNS', 60000))
     else:
-        n_rand, n_ff = int(os.environ.get('VERIF_C11_RUNS', 10000)), int(os.environ.get('VERIF_C11_FF_RUNS', 2000))
+        n_rand, n_ff = int(os.environ.get('VERIF_C11_RUNS', 6000)), int(os.environ.get('VERIF_C11_FF_RUNS', 1500))
     return {'rots': rots, 'variants': variants, 'n_sys': n_sys, 'pairs': pairs, 'n_pairs': len(pairs), 'n_rand': n_rand, 'n_ff': n_ff,
             'total': n_sys + len(pairs) + n_rand + n_ff}
 
@@ -309,7 +319,7 @@ def run_check(tier, seed):
     known = findings_mod.load()
     by_class = {}
     for v in sorted(viols, key=lambda v: (len(json.dumps(v['history'])), v['batch'], v['index'])):
-        by_class.setdefault(v['klass'] + '|' + str(v['failing'].get('R')), []).append(v)
+        by_class.setdefault(v['klass'], []).append(v)
     reported = []
     known_lines = []
     for klass, vs in sorted(by_class.items()):
